@@ -21,6 +21,8 @@ import (
 	"fmt"
 	"io"
 	"math/rand/v2"
+	"os"
+	"path/filepath"
 	"reflect"
 	"sort"
 	"strings"
@@ -30,6 +32,7 @@ import (
 	ocispec "github.com/opencontainers/image-spec/specs-go/v1"
 	oras "oras.land/oras-go/v2"
 	"oras.land/oras-go/v2/content"
+	"oras.land/oras-go/v2/content/file"
 	"oras.land/oras-go/v2/content/memory"
 	"oras.land/oras-go/v2/errdef"
 	"oras.land/oras-go/v2/verifharness/evidence"
@@ -46,6 +49,9 @@ const (
 	mtUnknownConfig    = "application/vnd.unknown.config.v1+json"
 	mtUnknownArtifact  = "application/vnd.unknown.artifact.v1"
 	annCreated         = "org.opencontainers.image.created"
+	annTitle           = "org.opencontainers.image.title"
+	manifestFileName   = "packed-manifest.json"
+	configFileName     = "packed-config.json"
 	annArtifactCreated = "org.opencontainers.artifact.created"
 )
 
@@ -58,7 +64,7 @@ func main() {
 	r.Rule("case = (entry point ∈ {PackManifest v1.0, v1.1, unsupported version, Pack image, Pack artifact}, artifact type ∈ {valid RFC 6838 names incl. lengths 1/127, invalid by each rule incl. 128, empty}, " +
 		"config descriptor given (valid / invalid / empty-JSON media type, content possibly exactly {} under a custom type) | config annotations | neither, layers nil / empty / 1..4 with duplicates, subject absent / plain / carrying artifactType, annotations, platform, urls, data (stored subject must equal the requested descriptor in every field), manifest annotations nil / empty / some with created absent / valid / malformed / empty / edge, " +
 		"target ∈ {memory, oci, file, remote, pusher-only} empty or already holding the placeholder blobs / the whole result, supplied blobs pre-pushed or not, " +
-		"race mode ∈ {quiet, racing writer: Exists says absent and the {} blob is stored just before the library's Push is forwarded, twin: an identical call runs concurrently and both rendezvous in Exists}); every target is wrapped in a recorder. " +
+		"file-store name history ∈ {none, title on manifest / invented config with a fresh name, or a name already taken by a pushed blob / Store.Add / an earlier pack: refusal with ErrDuplicateName or a completely stored result are both accepted, success with missing content is not}, race mode ∈ {quiet, racing writer: Exists says absent and the {} blob is stored just before the library's Push is forwarded, twin: an identical call runs concurrently and both rendezvous in Exists}); every target is wrapped in a recorder. " +
 		"Success: FetchAll(returned descriptor), parse, field-by-field comparison with an independent builder, existence of invented blobs, CopyGraph into an empty memory store, identical descriptor on repeat with fixed created. " +
 		"Documented rejections: no Push seen (no manifest Push for malformed created). distinct = (entry, artifact-type class, config class, layers class, subject, annotation class, created class, target, preload, race mode); " +
 		"racing modes must succeed exactly like the quiet one (same oracles, same descriptor as a quiet fresh target when created is fixed). non-trivial = a success that was fetched, parsed and compared, or a judged rejection observed through the recorder")
@@ -346,9 +352,13 @@ type caseIn struct {
 	Created      string // class: "absent", "valid", "malformed", "edge"
 	CreatedValue string
 	Target       string
-	Preload      string            // "none", "placeholders", "other-type", "supplied-missing"
-	Race         string            // "quiet", "writer", "twin" (see recorder)
-	blobs        map[string][]byte // digest -> content of supplied blobs
+	Preload      string // "none", "placeholders", "other-type", "supplied-missing"
+	Race         string // "quiet", "writer", "twin" (see recorder)
+	// file-store name history: which of the pushed things carry a title
+	// (= file name) and whether that name is already taken by different content
+	NameWhere string            // "", "manifest", "config", "both"
+	NameHist  string            // "", "fresh", "taken-push", "taken-add", "taken-pack"
+	blobs     map[string][]byte // digest -> content of supplied blobs
 }
 
 func pick[T any](rng *rand.Rand, xs []T) T { return xs[rng.IntN(len(xs))] }
@@ -444,10 +454,34 @@ func genCase(rng *rand.Rand) *caseIn {
 			// the file store turns a title annotation into a file name (with its
 			// own uniqueness rules, property C12); keep it out of this property
 			for _, m := range []map[string]string{c.Ann, c.ConfigAnn} {
-				if v, ok := m["org.opencontainers.image.title"]; ok {
-					delete(m, "org.opencontainers.image.title")
+				if v, ok := m[annTitle]; ok {
+					delete(m, annTitle)
 					m["org.example.title"] = v
 				}
+			}
+			// ... except deliberately, with a known name history
+			if rng.IntN(2) == 0 {
+				c.NameWhere = pick(rng, []string{"manifest", "manifest", "config", "both"})
+				if c.Config != nil && c.NameWhere != "manifest" {
+					c.NameWhere = "manifest" // only an invented config gets ConfigAnnotations
+				}
+				c.NameHist = pick(rng, []string{"fresh", "taken-push", "taken-push", "taken-add", "taken-pack"})
+				if c.NameWhere != "config" {
+					if c.Ann == nil {
+						c.Ann = map[string]string{}
+					}
+					c.Ann[annTitle] = manifestFileName
+				}
+				if c.NameWhere != "manifest" {
+					if c.ConfigAnn == nil {
+						c.ConfigAnn = map[string]string{}
+					}
+					c.ConfigAnn[annTitle] = configFileName
+					if c.ConfigClass == "none" {
+						c.ConfigClass = "annotations"
+					}
+				}
+				c.Race = "quiet"
 			}
 		}
 	}()
@@ -696,8 +730,8 @@ func expect(c *caseIn) expectation {
 	doc := map[string]any{"schemaVersion": float64(2), "mediaType": mtImageManifest}
 	customConfig := func(mt string) map[string]any {
 		d := blobDesc(mt, []byte("{}"))
+		d.Annotations = c.ConfigAnn // the file store addresses a titled blob by its name
 		e.Invented = append(e.Invented, d)
-		d.Annotations = c.ConfigAnn
 		return descMap(d)
 	}
 	switch c.Entry {
@@ -808,7 +842,7 @@ func describe(c *caseIn) map[string]any {
 	m := map[string]any{
 		"entry": c.Entry, "version": c.Version, "artifactType": c.ArtifactType, "config": c.Config, "configAnnotations": c.ConfigAnn,
 		"layers": c.Layers, "layersClass": c.LayersClass, "subject": c.Subject, "manifestAnnotations": c.Ann, "created": c.Created,
-		"target": c.Target, "preload": c.Preload, "race": c.Race,
+		"target": c.Target, "preload": c.Preload, "race": c.Race, "fileNames": c.NameWhere + "/" + c.NameHist,
 	}
 	return m
 }
@@ -867,7 +901,7 @@ func runCase(phase string, i int) (res worker.Result) {
 	c := genCase(rng)
 	e := expect(c)
 	w := describe(c)
-	res.Key = strings.Join([]string{c.Entry, c.ATClass, c.ConfigClass, c.LayersClass, c.SubjectClass, c.AnnClass, c.Created, c.Target, c.Preload, c.Race}, "|")
+	res.Key = strings.Join([]string{c.Entry, c.ATClass, c.ConfigClass, c.LayersClass, c.SubjectClass, c.AnnClass, c.Created, c.Target, c.Preload, c.Race, c.NameWhere + "/" + c.NameHist}, "|")
 	res.Observe("entry_x_outcome", c.Entry+"/"+e.Reject+e.Unjudged)
 	res.Observe("target_x_preload", c.Target+"/"+c.Preload)
 	res.Count("cases_target_"+c.Target, 1)
@@ -935,6 +969,64 @@ func runCase(phase string, i int) (res worker.Result) {
 	case "other-type":
 		_ = pushBlob(tgt, blobDesc("application/x.other", []byte("{}")), []byte("{}"))
 	}
+
+	// file-store name history
+	nameTaken := false
+	if c.NameHist != "" && h.File != nil {
+		res.Count("file_name_history_cases", 1)
+		res.Observe("file_name_histories", c.NameWhere+"/"+c.NameHist)
+		var names []string
+		if c.NameWhere != "config" {
+			names = append(names, manifestFileName)
+		}
+		if c.NameWhere != "manifest" {
+			names = append(names, configFileName)
+		}
+		switch c.NameHist {
+		case "taken-push": // a named blob with other content
+			for _, n := range names {
+				b := []byte("earlier content of " + n)
+				d := blobDesc("text/plain", b)
+				d.Annotations = map[string]string{annTitle: n}
+				if err := pushBlob(tgt, d, b); err == nil {
+					nameTaken = true
+				} else if !errors.Is(err, file.ErrDuplicateName) { // else: the preload already owns the name
+					res.Inconc = "set-up: cannot take the name " + n + ": " + err.Error()
+					return res
+				}
+			}
+		case "taken-add": // a file added with Store.Add
+			side, err := os.MkdirTemp("", "verif-c19-side-")
+			if err != nil {
+				res.Violate("harness:mkdtemp", err.Error(), nil)
+				return res
+			}
+			defer os.RemoveAll(side)
+			for _, n := range names {
+				p := filepath.Join(side, n)
+				if err := os.WriteFile(p, []byte("a file called "+n), 0o644); err != nil {
+					res.Violate("harness:write", err.Error(), nil)
+					return res
+				}
+				if _, err := h.File.Add(ctx, n, "text/plain", p); err == nil {
+					nameTaken = true
+				} else if !errors.Is(err, file.ErrDuplicateName) {
+					res.Inconc = "set-up: Store.Add(" + n + "): " + err.Error()
+					return res
+				}
+			}
+		case "taken-pack": // an earlier pack with the same titles but another manifest
+			c2 := *c
+			c2.Ann = map[string]string{"org.example.history": "earlier pack"}
+			for k, v := range c.Ann {
+				c2.Ann[k] = v
+			}
+			if _, err := invoke(&c2, tgt); err == nil {
+				nameTaken = true
+			}
+		}
+	}
+	w["name_taken"] = nameTaken
 
 	rec := &recorder{inner: tgt}
 	var pusher content.Pusher = rec
@@ -1012,6 +1104,13 @@ func runCase(phase string, i int) (res worker.Result) {
 	if err != nil {
 		if e.Unjudged != "" {
 			res.Count("unjudged_created_rejected", 1)
+			return res
+		}
+		if nameTaken && errors.Is(err, file.ErrDuplicateName) {
+			// the file name is taken by other content: refusing is fine (what must
+			// not happen is success without the content, judged below)
+			res.Count("file_name_taken_refused", 1)
+			res.NT = true
 			return res
 		}
 		key := "valid-input-rejected"
@@ -1143,6 +1242,11 @@ func runCase(phase string, i int) (res worker.Result) {
 	if c.Created == "valid" {
 		again, err2 := invoke(c, pusher) // same target, now holding everything
 		w["calls_repeat"] = rec.take()
+		if err2 != nil && c.NameHist != "" && errors.Is(err2, file.ErrDuplicateName) {
+			// the file store keeps one file per name: a refusal is fine, a success must be complete
+			res.Count("file_name_repeat_refused", 1)
+			again, err2 = desc, nil
+		}
 		if err2 != nil {
 			res.Violate("repeat-failed", "second identical call on the same target failed: "+err2.Error(), w)
 			return res
